@@ -226,7 +226,12 @@ def partition_cases(draw):
     pieces = []
     a = 0
     for b in stops:
-        pieces.append(draw(gen.encode(T, vals[a:b], PCFG)))
+        d = draw(gen.encode(T, vals[a:b], PCFG))
+        if draw(st.integers(0, 4)) == 0:
+            # a lazy partition (the shape ak.from_buffers / ak.from_parquet make with lazy=True): akshim.describe.default_virtual_builder
+            d = {"class": "VirtualArray", "generates": d, "declare_form": draw(st.booleans()), "declare_length": draw(st.booleans()),
+                 "cache": draw(st.sampled_from([None, "keep", "none_mapping"]))}
+        pieces.append(d)
         a = b
     pops = []
     cur = n
@@ -699,7 +704,8 @@ def check_partitioned(p, expected, what):
 
 
 def run_partition(case):
-    pieces = case["pieces"]
+    real_pieces = case["pieces"]
+    pieces = [D.strip_virtual(d) for d in real_pieces]       # what the model reads
     T = M.decode(pieces[0])[0]
     vals = []
     for d in pieces:
@@ -707,9 +713,10 @@ def run_partition(case):
     stops = []
     for d in pieces:
         stops.append((stops[-1] if stops else 0) + M.length_of(d))
-    p = V.IrregularlyPartitionedArray([D.build(d) for d in pieces])
+    p = V.IrregularlyPartitionedArray([D.build(d) for d in real_pieces])
     whole = D.build(gen.canonical(T, vals))      # the concatenated array, built from the model's concatenation
     tags = ["part:partition", "partitions:%d" % len(pieces)] + (["empty_partition"] if any(M.length_of(d) == 0 for d in pieces) else [])
+    tags += ["virtual_partition"] if any(d["class"] == "VirtualArray" for d in real_pieces) else []
     nontrivial = False
     check_partitioned(p, vals, "construction")
     if p.stops != stops:
